@@ -12,16 +12,21 @@ VARIABLES tid, seen     \* seen: per finished document, did the observation agre
 tvars == <<vars, tid, seen>>
 T == Traces[tid]
 
+ObsOf(d) == IF "obs" \in DOMAIN d THEN {d.obs[i] : i \in 1..Len(d.obs)} ELSE Fields   \* fields whose effect was observed
 TraceInit == /\ tid \in 1..Len(Traces) /\ Init /\ seen = <<>>
 TStart == /\ Len(hist) < Len(T.docs) /\ pc = "idle"
-          /\ StartParse(T.docs[Len(hist) + 1].upd) /\ UNCHANGED <<tid, seen>>
-TEnd == /\ EndParse
+          /\ LET d == T.docs[Len(hist) + 1] IN
+             IF WithRender THEN StartDoc(d.upd, d.fm, d.fig) ELSE StartParse(d.upd)
+          /\ UNCHANGED <<tid, seen>>
+TEnd == /\ (EndParse \/ EndRender)
         /\ LET d == T.docs[Len(hist)] IN
-           seen' = Append(seen, [eff |-> \A f \in Fields : d.eff[f] = new[f],
+           seen' = Append(seen, [eff |-> \A f \in ObsOf(d) : d.eff[f] = new[f],
                                  warns |-> d.warns = warns,
                                  global |-> \A f \in Fields : d.G[f] = G[f]])
         /\ UNCHANGED tid
-TraceNext == TStart \/ ((ValidateUpdate \/ Assign \/ Normalise) /\ UNCHANGED <<tid, seen>>) \/ TEnd
+TraceNext == \/ TStart
+             \/ ((ValidateUpdate \/ Assign \/ Normalise \/ (WithRender /\ EndMerge) \/ FigAdd \/ FigRestore) /\ UNCHANGED <<tid, seen>>)
+             \/ TEnd
 TraceSpec == TraceInit /\ [][TraceNext]_tvars
 
 Finished2 == pc = "idle" /\ Len(hist) = Len(T.docs)
